@@ -171,7 +171,7 @@ def families(tier, seed):
         fams += [sigma.fam(a, 5, ['3.7', '3.12'], name='%s=5' % a, n_lo=5) for a in ('blocks', 'strs', 'sem')]
         fams.append(sigma.fam('ffc', 7, ['3.8', '3.14']))
     if tier == 'quick':
-        fams += [sigma.g3('3.8', 5), sigma.g3('3.13', 5, slice_mod=4, slice_eq=seed % 4)]
+        fams += [sigma.g3('3.8', 4), sigma.g3('3.13', 5, slice_mod=8, slice_eq=seed % 8)]
     else:
         fams += [sigma.g3(v, 7) for v in ('3.6', '3.8', '3.12', '3.14')]
     return fams
